@@ -28,22 +28,28 @@ from harness.core import Ctx, MachineryError, REPO
 
 TNS = "urn:T"
 DECL = {
-    "tB": '<xs:complexType name="tB"><xs:sequence><xs:element name="x" type="xs:string"/></xs:sequence></xs:complexType>',
+    "tB": ('<xs:complexType name="tB" final="restriction"><xs:sequence><xs:element name="x" type="xs:string"/>'
+           '</xs:sequence></xs:complexType>'),
     "tD": ('<xs:complexType name="tD"><xs:complexContent><xs:extension base="t:tB"><xs:sequence>'
            '<xs:element name="y" type="xs:int"/></xs:sequence><xs:attributeGroup ref="t:ag"/>'
            '</xs:extension></xs:complexContent></xs:complexType>'),
     "ag": '<xs:attributeGroup name="ag"><xs:attribute name="p" type="xs:int"/></xs:attributeGroup>',
     "g": '<xs:group name="g"><xs:sequence><xs:element ref="t:e"/></xs:sequence></xs:group>',
-    "e": '<xs:element name="e" type="t:tD"/>',
+    "e": '<xs:element name="e" type="t:tD" block="restriction"/>',
     "m": '<xs:element name="m" type="t:tD" substitutionGroup="t:e"/>',
     "r": ('<xs:element name="r"><xs:complexType><xs:sequence><xs:group ref="t:g"/>'
-          '<xs:element ref="t:m" minOccurs="0"/></xs:sequence></xs:complexType></xs:element>'),
+          '<xs:element ref="t:m" minOccurs="0" maxOccurs="unbounded"/></xs:sequence></xs:complexType>'
+          '<xs:key name="K"><xs:selector xpath="t:e"/><xs:field xpath="@p"/></xs:key>'
+          '<xs:keyref name="R" refer="t:K"><xs:selector xpath="t:m"/><xs:field xpath="@p"/></xs:keyref>'
+          '</xs:element>'),
 }
 KIND = {"tB": "type", "tD": "type", "ag": "attribute_group", "g": "group", "e": "element",
         "m": "element", "r": "element"}
 PROBES = [
     ('<t:r xmlns:t="urn:T"><t:e p="1"><t:x>a</t:x><t:y>1</t:y></t:e></t:r>', True),
     ('<t:r xmlns:t="urn:T"><t:m><t:x>a</t:x><t:y>1</t:y></t:m><t:m><t:x>a</t:x><t:y>2</t:y></t:m></t:r>', True),
+    ('<t:r xmlns:t="urn:T"><t:e p="1"><t:x>a</t:x><t:y>1</t:y></t:e><t:m p="01"><t:x>a</t:x><t:y>1</t:y></t:m></t:r>', True),
+    ('<t:r xmlns:t="urn:T"><t:e p="1"><t:x>a</t:x><t:y>1</t:y></t:e><t:m p="2"><t:x>a</t:x><t:y>1</t:y></t:m></t:r>', False),
     ('<t:r xmlns:t="urn:T"><t:e><t:x>a</t:x></t:e></t:r>', False),
     ('<t:r xmlns:t="urn:T"><t:e p="x"><t:x>a</t:x><t:y>1</t:y></t:e></t:r>', False),
     ('<t:e xmlns:t="urn:T"><t:x>a</t:x><t:y>z</t:y></t:e>', False),
@@ -64,10 +70,33 @@ def globals_of(schema, ns=None):
     return sorted(out)
 
 
+def fingerprint(schema, ns=None):
+    """Structural fingerprint of the global components: what copy / pickle / rebuild must preserve."""
+    out = []
+    pre = ("{%s}" % ns) if ns is not None else None
+    for q, e in sorted(schema.maps.elements.items()):
+        if (pre and q.startswith(pre)) or (pre is None and not q.startswith("{http://www.w3.org/")):
+            out.append(("element", q, getattr(e.type, "name", None), e.block, e.final, e.abstract, e.nillable,
+                        e.fixed, e.default, sorted(i.name for i in e.identities),
+                        sorted(x.name for x in e.iter_substitutes())))
+    for q, t in sorted(schema.maps.types.items()):
+        if (pre and q.startswith(pre)) or (pre is None and not q.startswith("{http://www.w3.org/")):
+            out.append(("type", q, getattr(t.base_type, "name", None), getattr(t, "block", None), t.final,
+                        getattr(t, "abstract", None), getattr(t, "derivation", None),
+                        sorted(map(str, getattr(t, "attributes", {}) or {}))))
+    for q, members in sorted(schema.maps.substitution_groups.items()):
+        out.append(("substitution_group", q, sorted(m.name for m in members)))
+    out.append(("identities", sorted(str(k) for k in schema.maps.identities)))
+    return out
+
+
 def results(schema, xml):
     errs = []
-    for e in schema.iter_errors(xml):
-        errs.append((e.path, str(e.reason)[:160]))
+    try:
+        for e in schema.iter_errors(xml):
+            errs.append((e.path, str(e.reason)[:160]))
+    except Exception as e:      # noqa: BLE001
+        errs.append(("raised", type(e).__name__))
     try:
         data = schema.decode(xml, validation="lax")[0]
     except Exception as e:      # noqa: BLE001
@@ -131,14 +160,24 @@ def arrangement_case(job):
             s2.build()
             s2.build()
             variants.append(("built twice", s2))
+            s3 = cls(main)
+            s3.maps.clear()
+            s3.build()
+            variants.append(("cleared and rebuilt", s3))
             with open(main) as fh:
                 variants.append(("from text with base_url", cls(fh.read(), base_url=d)))
         except Exception as e:      # noqa: BLE001
             out.append((f"copy/pickle/rebuild raised {type(e).__name__}: {str(e)[:200]}", None))
+        fp0 = fingerprint(s, TNS)
         for label, sv in variants:
             got = globals_of(sv, TNS)
             if got != want:
                 out.append((f"{label}: global components {got}, spec expects {want}", label))
+                continue
+            fp = fingerprint(sv, TNS)
+            if fp != fp0:
+                diff = [x for x in fp if x not in fp0][:3]
+                out.append((f"{label}: components differ from the first build: {diff}", label))
                 continue
             for xml, ok in PROBES:
                 try:
@@ -231,9 +270,16 @@ def corpus_case(job):
     except Exception:       # noqa: BLE001
         return out, 0
     g0 = globals_of(base)
+    f0 = fingerprint(base)
     r0 = {os.path.basename(dp): results(base, dp) for dp in dpaths}
     n = 0
-    variants = [("copy", lambda: copy.copy(base)), ("pickle", lambda: pickle.loads(pickle.dumps(base)))]
+    def rebuilt():
+        sv = load(spath)
+        sv.maps.clear()
+        sv.build()
+        return sv
+    variants = [("copy", lambda: copy.copy(base)), ("pickle", lambda: pickle.loads(pickle.dumps(base))),
+                ("cleared and rebuilt", rebuilt)]
     if permute_schema_text(spath, rng):
         variants.append(("declarations permuted", lambda: load(spath)))
     for label, mk in variants:
@@ -248,6 +294,11 @@ def corpus_case(job):
             diff = sorted(set(g) ^ set(g0))[:6]
             out.append((spath, label, f"global components differ: {diff}"))
             continue
+        if label != "copy":
+            f = fingerprint(sv)
+            if f != f0:
+                out.append((spath, label, f"components differ: {[x for x in f if x not in f0][:2]}"[:400]))
+                continue
         for dp in dpaths:
             r = results(sv, dp)
             if r != r0[os.path.basename(dp)]:
